@@ -111,6 +111,15 @@ def check_droplet_tracker(ctx: Ctx):
         e_arg = arg_or_kw(a, 0, app.params[1])
         t_arg = arg_or_kw(a, 1, app.params[2])
         okp = e_arg is not None and U(e_arg) == res and t_arg is not None and U(t_arg) == h.params[2] and app.params[2] == "time" and hv.post_dominates(a, st)
+    # … as locate_droplets returned it: no method of the result is called in between (a second duplicate filter, a size filter)
+    if res:
+        touched = [x for x in hv.calls() if isinstance(x.func, ast.Attribute) and isinstance(x.func.value, ast.Name) and x.func.value.id == res
+                   and x.func.attr not in ("copy",) and not (ap and x is ap[0])]
+        touched += [s_ for s_ in hv.statements() if isinstance(s_, (ast.Assign, ast.AugAssign)) and s_ is not st
+                    and any(isinstance(t_, ast.Name) and t_.id == res for t_ in (s_.targets if isinstance(s_, ast.Assign) else [s_.target]))]
+        ctx.decide(not touched, "PIPE", f"{site}:result-as-returned", (h, touched[0]) if touched else (h, c), "the located emulsion is recorded as locate_droplets returned it",
+                   f"`{U(touched[0])[:70] if touched else ''}` changes the located emulsion before it is recorded: the tracker's frame differs from locate_droplets(frame, same settings) "
+                   "(e.g. a second duplicate filter after refinement drops a droplet that the offline analysis keeps)")
     ctx.decide(okp, "PIPE", f"{site}:append", (h, ap[0]) if ap else h, f"the located emulsion is appended with time={h.params[2]} on every path",
                "the located emulsion is not appended to the time course with the solver's time bound to the `time` parameter")
     # every frame is analysed: no path through handle() reaches the append without the locate_droplets call, and the
@@ -390,6 +399,16 @@ def check(ctx: Ctx):
         "offline path with resolved time parameter), NONETEST, TRYGUARD (handler shape), PAIR (post-dominance of both appends), IOAGREE."
     )
     check_droplet_tracker(ctx)
+    # finalize writes the recorded data under the file name and nothing else: extra arguments (the simulation info, which holds
+    # objects that are not JSON-serialisable in adaptive runs) make the end of a simulation raise
+    for q_ in (f"{TRK}.DropletTracker.finalize",):
+        if m.has_func(q_):
+            f_ = m.func(q_)
+            tf_ = [c_ for c_ in ast.walk(f_.node) if isinstance(c_, ast.Call) and isinstance(c_.func, ast.Attribute) and c_.func.attr == "to_file"]
+            okf_ = len(tf_) == 1 and [U(a_) for a_ in tf_[0].args] == ["self.filename"] and not tf_[0].keywords
+            ctx.decide(okf_, "FORWARD", q_ + ":to_file", (f_, tf_[0]) if tf_ else f_, "finalize writes self.data.to_file(self.filename)",
+                       f"finalize writes `{U(tf_[0])[:70] if tf_ else 'nothing'}`: further arguments change what is stored next to the time course or make writing fail for "
+                       "simulation info that cannot be serialised (adaptive time stepping), so the run ends with an exception instead of a result file")
     check_offline(ctx)
     nonetest.check(ctx, m.func(f"{EM}.EmulsionTimeCourse.append"), "time", "the time stamp")
     from ..rules import collections as col
